@@ -990,7 +990,7 @@ def case_kiss(ctx, idx, tier, hist=None, additive=False):
     label = ("add_" if additive else "") + (("copy_" if hist in HIST_COPY else "hist_") if hist else "")
     rng = ctx.rng(f"{label}kiss:{idx}")
     torch.manual_seed(rng.torch_seed())
-    d = (2 + idx % 2) if additive else (1 + idx % 2)
+    d = (2 + ((idx // 2) % 2 if hist else idx % 2)) if additive else (1 + idx % 2)
     if hist is None:
         cell = ["chol", "fpv", "fps", "fpv+fps", "cg"][(idx // 2) % 5]
     else:
@@ -1370,6 +1370,11 @@ def case_kisslb(ctx, idx, tier):
             got = gk(x1, x2, last_dim_is_batch=True).to_dense()        # (*b, d, n, m)
             ii1, vv1 = gk._compute_grid(x1, True)                      # (*b, d, n, 4)
             Kf = gk._inducing_forward(last_dim_is_batch=True).to_dense().reshape(-1, gsz, gsz)
+            # the two structure wrappers that use this path: sum / product over the d per-dimension kernels
+            addk = gpytorch.kernels.AdditiveStructureKernel(gk, num_dims=d)
+            prodk = gpytorch.kernels.ProductStructureKernel(gk, num_dims=d)
+            wrap = {"add12": addk(x1, x2).to_dense(), "add_diag": addk(x1, x1, diag=True),
+                    "prod11": prodk(x1, x1).to_dense(), "prod_diag": prodk(x1, x1, diag=True)}
             ev = gk.eval()
             got_eval = ev(x1, x2, last_dim_is_batch=True).to_dense()    # eval mode: through GridKernel._cached_kernel_mat
             got_eval2 = ev(x1, x2, last_dim_is_batch=True).to_dense()
@@ -1410,12 +1415,21 @@ def case_kisslb(ctx, idx, tier):
         G1 = got.reshape(B, d, n, m)
         GE, GE2 = got_eval.reshape(B, d, n, m), got_eval2.reshape(B, d, n, m)
         II, VV = ii1.reshape(B, d, n, -1), vv1.reshape(B, d, n, -1)
+        def wkw(ra, rb):
+            KWb = [[sum(K[u][v] * w for v, w in enumerate(rr) if w != 0) for rr in rb] for u in range(gsz)]
+            return [[sum(w * KWb[u][c] for u, w in enumerate(rr) if w != 0) for c in range(len(rb))] for rr in ra]
         for b in range(B):
+            sum12 = [[Fraction(0)] * m for _ in range(n)]
+            sum11 = [[Fraction(0)] * n for _ in range(n)]
+            prod11 = [[Fraction(1)] * n for _ in range(n)]
             for i in range(d):
                 r1 = [W1[(b * d + i) * n + a] for a in range(n)]
                 r2 = [W2[(b * d + i) * m + c] for c in range(m)]
-                KW2 = [[sum(K[u][v] * w for v, w in enumerate(rr) if w != 0) for rr in r2] for u in range(gsz)]
-                want = [[sum(w * KW2[u][c] for u, w in enumerate(rr) if w != 0) for c in range(m)] for rr in r1]
+                want = wkw(r1, r2)
+                w11 = want if same else wkw(r1, r1)
+                sum12 = [[x + y for x, y in zip(ra, rb)] for ra, rb in zip(sum12, want)]
+                sum11 = [[x + y for x, y in zip(ra, rb)] for ra, rb in zip(sum11, w11)]
+                prod11 = [[x * y for x, y in zip(ra, rb)] for ra, rb in zip(prod11, w11)]
                 ex = {"batch": b, "dim": i}
                 what = f"{desc}: batch element (b={b}, input dimension i={i})"
                 rep.close("GridInterpolationKernel/last_dim_is_batch/to_dense", f"{what} of kernel(x1,x2,last_dim_is_batch=True) vs "
@@ -1438,6 +1452,16 @@ def case_kisslb(ctx, idx, tier):
                         rep.fail("GridInterpolationKernel/last_dim_is_batch/compute_grid", f"{what}: _compute_grid(x1, True)[{i}, {a}] is not the "
                                  f"interpolation row of x1[{a}, {i}] = {x1.reshape(B, n, d)[b, a, i].item()!r} (differs by {derr:.3e})", ex)
                         break
+            # the structure wrappers over the d per-dimension kernels of this batch element
+            exb = {"batch": b}
+            rep.close("AdditiveStructureKernel/to_dense", f"{desc} b={b}: AdditiveStructureKernel(kiss)(x1,x2) vs sum_i W(x1[:,i]) K_uu W(x2[:,i])^T",
+                      wrap["add12"].reshape(B, n, m)[b], sum12, rtol=1e-11, atol=1e-12, extra=exb)
+            rep.close("AdditiveStructureKernel/diag", f"{desc} b={b}: AdditiveStructureKernel(kiss)(x1,x1,diag=True) vs the diagonal of the sum",
+                      wrap["add_diag"].reshape(B, n)[b], [[sum11[a][a]] for a in range(n)], rtol=1e-11, atol=1e-12, extra=exb)
+            rep.close("ProductStructureKernel/to_dense", f"{desc} b={b}: ProductStructureKernel(kiss)(x1,x1) vs prod_i W(x1[:,i]) K_uu W(x1[:,i])^T",
+                      wrap["prod11"].reshape(B, n, n)[b], prod11, rtol=1e-11, atol=1e-12, extra=exb)
+            rep.close("ProductStructureKernel/diag", f"{desc} b={b}: ProductStructureKernel(kiss)(x1,x1,diag=True) vs the diagonal of the product",
+                      wrap["prod_diag"].reshape(B, n)[b], [[prod11[a][a]] for a in range(n)], rtol=1e-11, atol=1e-12, extra=exb)
     return Case("kisslb", idx, desc, lines, check, nontrivial=d > 1, sample={"family": "kisslb", "desc": desc})
 
 
